@@ -18,3 +18,6 @@ EXPLANATION = ('Bounded: the partition laws as set identities and every HTML sta
 LEVEL_TEXT = EXPLANATION
 TECHNIQUE = 'bounded evaluation of contracts and partition laws; supporting contracts proved by VC generation'
 MUSTFAIL = False
+
+FUNCTIONS = FUNCTIONS + ['soupsieve.css_match.CSSMatch.match_range', 'soupsieve.css_match._DocumentNav.get_attribute_by_name']
+SHARDS = {'match_range': 8, 'parse_value': 8, 'match_selectors': 16, 'match_nth': 4}
